@@ -39,7 +39,8 @@ func Run(r *core.Run) {
 	add(scen.EcKeygen("near-q", 3, 2, r.Seed), "dev", 0)
 	add(scen.EcKeygen("multiples", 4, 3, r.Seed), "dev", 0) // t >= 3: the first configuration in which k^3 differs from k^4/2 etc.
 	if r.Tier == "thorough" {
-		add(scen.EdKeygen("large", 4, 2, r.Seed), "dev", 2)
+		add(scen.EdKeygen("large", 4, 2, r.Seed), "dev", 1)
+		add(scen.EdKeygen("multiples", 2, 1, r.Seed), "dev", 2) // every 2-deviation run of the smallest configuration
 		add(scen.EdKeygen("small", 5, 2, r.Seed), "dev", 1)
 		add(scen.EdKeygen("near-q", 5, 4, r.Seed), "dev", 1)
 		add(scen.EcKeygen("large", 2, 1, r.Seed), "", 0) // all schedules, decomposed
